@@ -3,7 +3,7 @@ from .. import common, instrument as ins, mon1, mon2, w2
 from . import _diff, _w1case, _w2case
 
 ID = "C08"
-KNOWN_CEILING = {'k5_weight': 0.01}   # share of all evaluations a known finding may reach before it counts as a violation again
+KNOWN_CEILING = {'k5_weight': 0.01, 'k14_bankruptcy_date_float_order': 0.01}   # share of all evaluations a known finding may reach before it counts as a violation again
 LEVEL = "exploration"
 RULE = ("W1: (a) raw private state + recorded frames identical after 1-3 redundant update calls (root and random strategy nodes) following "
         "every operation; (b) on deep copies of a tree with pending changes the FIRST read of one random property equals the read after an "
@@ -66,8 +66,14 @@ def run_inject(cs, lev=False):
     if d:
         d.update(case_seed=cs, desc=spec["desc"], updates=ctx.updates, reads=ctx.reads)
         mech = "c08_injection"
-        if a.root.bankrupt and d.get("col") in ("price", "value", "cash") and False:
-            mech = "k5_weight"
+        if a.root.bankrupt:
+            # K14: an extra update placed between the algos of the date on which the root goes under discovers the negative value earlier, so
+            # the liquidation (a side effect of update) is executed at another point of the date's trade sequence; the date's fees / cash then
+            # differ in their last bits (float summation order). Anything larger than that is not this mechanism.
+            V = a.root.data["value"].to_numpy(dtype=float)
+            neg = [i for i in range(len(V)) if V[i] < 0]
+            if neg and d.get("row") is not None and d["row"] >= neg[0] and ins.first_frame_diff(fa, fb, rel=1e-12, abs_tol=1e-12) is None:
+                mech = "k14_bankruptcy_date_float_order"
         return common.result(common.VIOL, sig=sig, nt=True, cnt=cnt, mech=mech, witness=d, sample=sample)
     if ta != tb:
         return common.result(common.VIOL, sig=sig, nt=True, cnt=cnt, mech="c08_injection_trades", witness={"case_seed": cs, "trades_base": len(ta), "trades_injected": len(tb)}, sample=sample)
